@@ -301,11 +301,13 @@ class StallPeer(object):
     def __init__(self, sock, case):
         self.sock = sock
         self.case = case
+        self.reached = False
         self.g = gevent.spawn(self.run)
 
     def reply(self, stage, text):
         c = self.case
         if c['stage'] == stage:
+            self.reached = True
             if c['mode'] == 'silent':
                 gevent.sleep(3600)
             else:
@@ -323,6 +325,7 @@ class StallPeer(object):
         try:
             f = self.sock.makefile('rb')
             if c['stage'] == 'TLS-immediate':
+                self.reached = True
                 if c['mode'] == 'trickle':
                     self.sock.sendall(b'\x16\x03\x03')          # looks like the start of a handshake record
                 gevent.sleep(3600)
@@ -353,6 +356,7 @@ class StallPeer(object):
                 elif verb == b'STARTTLS':
                     self.reply('STARTTLS', b'220 go\r\n')
                     if c['stage'] == 'TLS-handshake':
+                        self.reached = True
                         gevent.sleep(3600)                       # the 220 was sent, the handshake never starts
                     self.sock = server_ctx().wrap_socket(self.sock, server_side=True)
                     f = self.sock.makefile('rb')
@@ -401,6 +405,16 @@ class StallPeer(object):
 
 
 def run_client_case(case, watchdog):
+    # On a loaded machine the 50 ms command timeout can fire before the scripted stall point; such a run says nothing
+    # about the stall, so it is repeated (and counted as trivial if the stall point is never reached).
+    for attempt_no in range(4):
+        out, nontrivial, reached = _run_client_case(case, watchdog)
+        if out or reached:
+            return out, nontrivial
+    return out, False
+
+
+def _run_client_case(case, watchdog):
     peers = []
 
     def creator(address):
@@ -460,7 +474,8 @@ def run_client_case(case, watchdog):
                 a.close()
             except Exception:
                 pass
-    return out, case['stage'] not in ('connect', 'banner', 'TLS-immediate')
+    reached = case['stage'] == 'connect' or any(p.reached for p, a in peers)
+    return out, case['stage'] not in ('connect', 'banner', 'TLS-immediate'), reached
 
 
 def run_client_idle_case(case, watchdog):
@@ -560,6 +575,8 @@ def client_cases():
                         continue
                     if stage == 'HELO' and kind == 'lmtp':
                         continue
+                    if stage == 'RSET':
+                        continue            # sent only after a rejected transaction: the cases below
                     for nrcpt in (1, 2):
                         if nrcpt == 2 and stage not in ('RCPT', 'EOD', 'DATA'):
                             continue
